@@ -136,6 +136,7 @@ type vcgen struct {
 	oblNames   map[string]int
 	params     map[string]cval
 	sharedCell map[ssa.Value]bool
+	sharedSince map[ssa.Value][]ssa.Instruction // the go statements after which a shared cell may change under our feet
 	rangeVis   map[ssa.Value]string // range iterator -> visited state var
 	rangeMap   map[ssa.Value]ssa.Value
 	embIDs     map[string]int
